@@ -121,4 +121,147 @@ PLANS["C11"] = {
     "assumptions": ["plain engine is the reference"],
 }
 
+
+def _cut(**kw):
+    e = dict(ALL_ZERO)
+    e.update({k: str(v) for k, v in kw.items()})
+    return e
+
+
+def c06_jobs(tier, seed, bin_dir, replay):
+    if replay:
+        return [eggmon(bin_dir, "exec", "replay", seed, tier, threads=4, env=ALL_ZERO, extra={"file": replay})]
+    n = 150 if tier == "quick" else 1500
+    base = {"profile": "mono"}
+    jobs = [eggmon(bin_dir, "battery", "ref-j1", seed, tier, n=n, threads=1, extra=dict(base, texts=1))]
+    configs = [
+        ("j2-zero", 2, ALL_ZERO), ("j4-zero", 4, ALL_ZERO), ("j8-zero", 8, ALL_ZERO),
+        ("j4-default", 4, {}),
+        ("j3-tableop0", 3, {"EGGLOG_PARALLEL_TABLE_OP_CUTOFF": "0"}),
+        ("j4-rebuild0", 4, {"EGGLOG_PARALLEL_REBUILD_CUTOFF": "0", "EGGLOG_PARALLEL_DB_LEVEL_OP_CUTOFF": "0"}),
+        ("j4-batch7-fork0", 4, _cut(EGGLOG_PARALLEL_ACTION_BATCH_SIZE=7, EGGLOG_PARALLEL_FREE_JOIN_FORK_DEPTH=0)),
+    ]
+    if tier != "quick":
+        configs += [
+            ("j16-zero", 16, ALL_ZERO), ("j3-zero", 3, ALL_ZERO),
+            ("j4-index0", 4, {"EGGLOG_PARALLEL_INDEX_CONSTRUCTION_CUTOFF": "0"}),
+            ("j4-container0", 4, {"EGGLOG_PARALLEL_INTRA_CONTAINER_CUTOFF": "0", "EGGLOG_PARALLEL_INTER_CONTAINER_CUTOFF": "0"}),
+            ("j8-batch8192-fork1", 8, _cut(EGGLOG_PARALLEL_ACTION_BATCH_SIZE=8192, EGGLOG_PARALLEL_FREE_JOIN_FORK_DEPTH=1)),
+            ("j2-tasks5", 2, _cut(EGGLOG_PARALLEL_TASKS_PER_THREAD=5)),
+        ]
+    reps = 2 if tier == "quick" else 4
+    for label, j, env in configs:
+        for r in range(reps):
+            job = eggmon(bin_dir, "battery", f"{label}-r{r}", seed, tier, n=n, threads=j, env=env, extra=base, on_crash="violation")
+            # widen OS schedules: pin some repeats to 1-2 cores (forced preemption)
+            if r % 2 == 1:
+                job["argv"] = ["taskset", "-c", "0" if r == 1 else "0,1"] + job["argv"]
+            jobs.append(job)
+    return jobs
+
+
+def _cases(rep):
+    return rep["samples"][0]["cases"] if rep and rep.get("samples") else []
+
+
+def compare_post(keys, prop, what):
+    def post(results, counters, violations, inconclusive, tier):
+        ref = None
+        for job, rep, status, tail, dt in results:
+            if job["label"].startswith("ref"):
+                ref = _cases(rep)
+        if not ref:
+            inconclusive.append("reference child produced no cases")
+            return
+        compared = 0
+        for job, rep, status, tail, dt in results:
+            if job["label"].startswith("ref") or rep is None:
+                continue
+            cs = _cases(rep)
+            for a, b in zip(ref, cs):
+                compared += 1
+                for k in keys:
+                    if a[k] != b[k]:
+                        violations.append({
+                            "sig": f"{prop}:{job['label']}:{a['i']}:{k}",
+                            "detail": f"{what}: program #{a['i']} differs in {k} between reference child and child {job['label']} (env {job.get('env')}, argv {' '.join(job['argv'][:3])} ...)",
+                            "replay": a.get("text", ""),
+                        })
+                        break
+        counters["cross_process_comparisons"] = compared
+        # keep evidence small: drop the per-case arrays from samples
+    return post
+
+
+PLANS["C06"] = {
+    "jobs": c06_jobs,
+    "post": compare_post(["h_stable", "h_canon"], "C06", "result depends on thread count / parallel cut-offs"),
+    "level": "exploration",
+    "rule": "the same generated monotone programs (seeded) are executed in child processes that differ only in thread count and EGGLOG_PARALLEL_* settings (cut-offs 0 so every parallel implementation runs on small inputs; repeats, some pinned to 1-2 cores); per program the stable outputs (check outcomes, sizes, extraction costs) and the canonical dump must equal the single-threaded reference. distinct_nontrivial = distinct non-empty final dumps.",
+    "technique": "cross-process differential monitor: -j1 reference vs parallel configurations (cut-offs 0), canonical dumps and stable outputs compared",
+    "level_text": "Each parallel configuration (2..16 threads x cut-off profiles incl. all zero, fork depth, action batch size) is run in its own child process on the same generated programs; results must be isomorphic to the single-threaded run. Schedules are widened by repetition and CPU pinning; a crashing child (assert, abort) counts as a violation.",
+    "level_note": "OS scheduling is sampled, not enumerated. Output ORDER (print-function rows, extract tie-breaking) is not compared across thread counts; the canonical dump is.",
+    "floors": {"quick": {"cross_process_comparisons": 1500}, "thorough": {"cross_process_comparisons": 60000}},
+    "assumptions": ["dump via public read API", "cut-offs are read once per process from the environment"],
+}
+
+
+def c20_jobs(tier, seed, bin_dir, replay):
+    if replay:
+        return [eggmon(bin_dir, "exec", "replay", seed, tier, extra={"file": replay})]
+    n = 200 if tier == "quick" else 2000
+    jobs = []
+    for mode in (["plain"] if tier == "quick" else ["plain", "term", "proofs"]):
+        base = {"profile": "any", "mode": mode}
+        pre = "" if mode == "plain" else mode + "-"
+        jobs.append(eggmon(bin_dir, "battery", f"ref-{mode}", seed, tier, n=n, extra=dict(base, texts=1)))
+        variants = [
+            (pre + "again", {}, [], {}),
+            (pre + "bigenv", {"VERIF_PAD": "x" * 20000, "RUST_LOG": "off", "LANG": "C"}, [], {}),
+            (pre + "noaslr", {}, ["setarch", "x86_64", "-R"], {}),
+            (pre + "cpu1", {}, ["taskset", "-c", "0"], {}),
+            (pre + "cpu3", {}, ["taskset", "-c", "0-2"], {}),
+            (pre + "prealloc", {}, [], {"prealloc": 20000}),
+            (pre + "cwd", {}, [], {}),
+        ]
+        for label, env, prefix, extra in variants:
+            job = eggmon(bin_dir, "battery", label, seed, tier, n=n, env=env, extra=dict(base, **extra))
+            job["argv"] = prefix + job["argv"]
+            if label.endswith("cwd"):
+                job["cwd"] = "/"
+            jobs.append(job)
+    return jobs
+
+
+def c20_post(results, counters, violations, inconclusive, tier):
+    by_mode = {}
+    for r in results:
+        lab = r[0]["label"]
+        mode = "plain"
+        for m in ("term", "proofs"):
+            if lab.startswith(m + "-") or lab == "ref-" + m:
+                mode = m
+        by_mode.setdefault(mode, []).append(r)
+    total = 0
+    for mode, rs in by_mode.items():
+        sub = {}
+        compare_post(["h_full", "h_canon"], "C20", f"single-threaded run not reproducible ({mode} mode)")(
+            [(dict(j, label=("ref" if j["label"].startswith("ref") else j["label"])), rep, st, tl, dt) for j, rep, st, tl, dt in rs],
+            sub, violations, inconclusive, tier)
+        total += sub.get("cross_process_comparisons", 0)
+    counters["cross_process_comparisons"] = total
+
+
+PLANS["C20"] = {
+    "jobs": c20_jobs,
+    "post": c20_post,
+    "level": "exploration",
+    "rule": "generated programs biased to order-revealing outputs (print-function, extract with ties, print-size, containers, delete, push/pop) are executed single-threaded in several child processes that differ in environment size/content, ASLR (setarch -R), CPU affinity (available_parallelism), allocator pre-state and working directory; the complete rendered outputs (incl. errors and timing-free run reports) and canonical dumps must be byte-identical to the reference child. distinct_nontrivial = distinct non-empty final dumps.",
+    "technique": "cross-process differential monitor: byte comparison of full command outputs and run reports across processes with perturbed address space / environment",
+    "level_text": "The same seeded programs run with one thread in 8 differently perturbed processes (plus term-encoding and proofs modes in thorough); any byte difference in outputs, errors, run reports (durations removed) or canonical dump is a violation.",
+    "level_note": "Perturbations sampled: ASLR on/off, env size, RUST_LOG, CPU set 1/3/all, allocation storm, cwd. Wall-clock dependence is probed only by the natural spacing of child start times.",
+    "floors": {"quick": {"cross_process_comparisons": 1000}, "thorough": {"cross_process_comparisons": 30000}},
+    "assumptions": ["outputs rendered with Display; run report = updated/can_stop/iterations/matches per rule"],
+}
+
 NOT_APPLICABLE = {}
